@@ -272,7 +272,7 @@ func evalServer(c SCase) (fail *kit.Failure, ev map[string]int, sh *shape) {
 			ev["excluded:"+e] = 1
 		}
 		if sh.sub["counter_dedup_nonempty"] {
-			ev["excluded:N6-dedup-wire"] = 1
+			ev["excluded:F31-dedup-wire"] = 1
 		}
 	} else {
 		err, panicked := guarded(func() error { return revisions.Restore(ctx, s.BE, proj, rev.ID) })
@@ -303,7 +303,7 @@ func evalServer(c SCase) (fail *kit.Failure, ev map[string]int, sh *shape) {
 		return fail, ev, sh
 	}
 	if classify(before).sub["counter_dedup_nonempty"] && !kit.NoExclusions() {
-		ev["excluded:N6-dedup-wire"] = 1
+		ev["excluded:F31-dedup-wire"] = 1
 		return nil, ev, sh
 	}
 	if err := cl.Detach(ctx, d); err != nil {
